@@ -207,6 +207,7 @@ struct World {
     evs: Vec<String>,
     phase: Phase,
     decision: Option<bool>,
+    born_broken: Option<u8>,
     connect_waker: Option<Waker>,
     connect_pending: bool,
     conn: Option<Arc<Mutex<Conn>>>,
@@ -554,7 +555,17 @@ impl<T: BuildConn> Future for ConnectFut<T> {
                 w.phase = Phase::Up;
                 w.conn_seq += 1;
                 let id = w.conn_seq;
-                let c = Arc::new(Mutex::new(Conn { id, ..Conn::default() }));
+                let mut c0 = Conn { id, ..Conn::default() };
+                if let Some(k) = w.born_broken.take() {
+                    if k == 0 || k == 2 {
+                        c0.werr = Some(true);
+                    }
+                    if k == 1 || k == 2 {
+                        c0.reof = true;
+                        c0.outbox.push_back(PItem::Eof);
+                    }
+                }
+                let c = Arc::new(Mutex::new(c0));
                 w.conn = Some(c.clone());
                 w.tick_deadline = Some(tokio::time::Instant::now());
                 w.last_pe = None;
@@ -614,6 +625,8 @@ enum Op {
     Enq(u64),
     EnqM(Vec<u64>),
     Conn(bool),
+    /// connection established but already broken: 0 = writes fail, 1 = peer closed, 2 = both
+    ConnBroken(u8),
     Adv(u64),
     Close,
     Wcap(usize),
@@ -645,6 +658,7 @@ impl Op {
                 if v.is_empty() { "-".to_string() } else { v.iter().map(|i| i.to_string()).collect::<Vec<_>>().join(",") }
             ),
             Op::Conn(ok) => format!("s conn {}", if *ok { "ok" } else { "fail" }),
+            Op::ConnBroken(k) => format!("s conn {}", ["okw", "okr", "okwr"][*k as usize % 3]),
             Op::Adv(ms) => format!("s adv {}", ms),
             Op::Close => "s close".to_string(),
             Op::Wcap(n) => format!("s wcap {}", num(*n)),
@@ -675,6 +689,9 @@ impl Op {
             ("enq", Some(a)) => Some(Op::Enq(a.parse().ok()?)),
             ("enqm", Some("-")) => Some(Op::EnqM(vec![])),
             ("enqm", Some(a)) => Some(Op::EnqM(a.split(',').filter_map(|x| x.parse().ok()).collect())),
+            ("conn", Some("okw")) => Some(Op::ConnBroken(0)),
+            ("conn", Some("okr")) => Some(Op::ConnBroken(1)),
+            ("conn", Some("okwr")) => Some(Op::ConnBroken(2)),
             ("conn", Some(a)) => Some(Op::Conn(a == "ok")),
             ("adv", Some(a)) => Some(Op::Adv(a.parse().ok()?)),
             ("close", _) => Some(Op::Close),
@@ -762,6 +779,7 @@ struct CaseOut {
     results: BTreeMap<u64, Vec<String>>,
     enqueued: Vec<u64>,
     byzantine: bool,
+    corrupt: bool,
     silent_unanswered: Vec<u64>,
     silent_pred: bool,
     written_on: BTreeMap<u64, Vec<u64>>,
@@ -853,6 +871,7 @@ impl Runner {
             evs: vec![],
             phase: Phase::Connecting,
             decision: None,
+            born_broken: None,
             connect_waker: None,
             connect_pending: false,
             conn: None,
@@ -885,6 +904,7 @@ impl Runner {
                 results: BTreeMap::new(),
                 enqueued: vec![],
                 byzantine: false,
+                corrupt: false,
                 silent_unanswered: vec![],
                 silent_pred: false,
                 written_on: BTreeMap::new(),
@@ -1050,16 +1070,21 @@ impl Runner {
         let conn = self.w.lock().unwrap().conn.clone();
         let mut obs = "-".to_string();
         match op {
-            Op::Enq(id) => obs = self.enqueue(&[*id], false),
+            Op::Enq(id) => {
+                if self.node.is_some() {
+                    obs = self.enqueue(&[*id], false)
+                }
+            }
             Op::EnqM(ids) => {
                 if mode_b {
-                    // byte mode has no Multi tasks: enqueue them one by one
-                    let mut o = vec![];
+                    // byte mode has no Multi tasks: one plain task per id (written as `s enq` lines)
                     for id in ids {
-                        o.push(self.enqueue(&[*id], false));
+                        let obs = if self.node.is_some() { self.enqueue(&[*id], false) } else { "-".to_string() };
+                        self.out.lines.push((Op::Enq(*id).text(), obs));
+                        self.settle().await;
                     }
-                    obs = if o.iter().all(|x| x == "q") { "q".to_string() } else { o.join(" ") };
-                } else {
+                    return;
+                } else if self.node.is_some() {
                     obs = self.enqueue(ids, true)
                 }
             }
@@ -1067,6 +1092,16 @@ impl Runner {
                 let mut w = self.w.lock().unwrap();
                 if w.connect_pending && w.decision.is_none() {
                     w.decision = Some(*ok);
+                    if let Some(k) = w.connect_waker.take() {
+                        k.wake();
+                    }
+                }
+            }
+            Op::ConnBroken(k) => {
+                let mut w = self.w.lock().unwrap();
+                if w.connect_pending && w.decision.is_none() {
+                    w.decision = Some(true);
+                    w.born_broken = Some(*k);
                     if let Some(k) = w.connect_waker.take() {
                         k.wake();
                     }
@@ -1109,6 +1144,7 @@ impl Runner {
                 }
             }
             Op::Garbage => {
+                self.out.corrupt = true;
                 if let Some(c) = conn {
                     let mut c = c.lock().unwrap();
                     if mode_b {
@@ -1329,7 +1365,13 @@ fn gen_script(rng: &mut Rng, st: &mut Stats, cfg: &Cfg, thorough: bool) -> (Vec<
                 let r = rng.below(24);
                 let op = match r {
                     0..=6 => enq(rng, &mut next),
-                    7..=9 => Op::Conn(rng.chance(5, 6)),
+                    7..=9 => {
+                        if rng.chance(1, 5) {
+                            Op::ConnBroken(rng.below(3) as u8)
+                        } else {
+                            Op::Conn(rng.chance(5, 6))
+                        }
+                    }
                     10..=12 => Op::Wcap(if rng.chance(1, 4) { INF } else { small(rng) }),
                     13..=15 => Op::Rd(if rng.chance(1, 4) { INF } else { small(rng) }),
                     16 => Op::Adv(*rng.pick(&[1u64, 5, 30, 250, 1001, 3100])),
@@ -1397,12 +1439,13 @@ fn gen_script(rng: &mut Rng, st: &mut Stats, cfg: &Cfg, thorough: bool) -> (Vec<
             // the backend accepts the connection, reads the request and drops the connection
             ops.push(Op::Enq(fresh_id(rng, &mut next)));
             let rounds = rng.range(2, 9);
+            let style = rng.below(3);
             for _ in 0..rounds {
                 ops.push(Op::Conn(true));
-                if rng.chance(1, 4) {
+                if style == 0 || (style == 2 && rng.chance(1, 2)) {
                     // break in the very first poll (the only case in which retry_times is counted)
-                    ops.push(Op::Werr(true));
-                    ops.push(Op::Wcap(INF));
+                    ops.pop();
+                    ops.push(Op::ConnBroken(rng.below(3) as u8));
                 } else {
                     ops.push(Op::Wcap(INF));
                     ops.push(if rng.chance(1, 2) { Op::Reof } else { Op::Rerr });
@@ -1441,7 +1484,13 @@ fn gen_script(rng: &mut Rng, st: &mut Stats, cfg: &Cfg, thorough: bool) -> (Vec<
                 let r = rng.below(22);
                 let op = match r {
                     0..=6 => enq(rng, &mut next),
-                    7..=9 => Op::Conn(rng.chance(5, 6)),
+                    7..=9 => {
+                        if rng.chance(1, 5) {
+                            Op::ConnBroken(rng.below(3) as u8)
+                        } else {
+                            Op::Conn(rng.chance(5, 6))
+                        }
+                    }
                     10..=12 => Op::Wcap(if rng.chance(1, 3) { INF } else { rng.range(1, 4) as usize }),
                     13..=15 => Op::Reply(if rng.chance(1, 5) { rng.range(1, 3) as u8 } else { 0 }),
                     16 => Op::Adv(*rng.pick(&[1u64, 5, 250, 1001, 3100])),
@@ -1549,7 +1598,8 @@ fn oracle(case: u64, cfg: &Cfg, script: &[Op], out: &CaseOut, st: &mut Stats) {
         for r in rs.iter() {
             st.count(&format!("out.{}", if r.starts_with('r') { "reply" } else { r.as_str() }));
             if let Some(tag) = r.strip_prefix('r') {
-                if tag != id.to_string() && !out.byzantine {
+                // tag 0 = not an echo at all: only the scripted garbage / unsolicited replies produce it
+                if tag != id.to_string() && !out.byzantine && !(tag == "0" && out.corrupt) {
                     st.oracle_failure(
                         case,
                         &format!("C08: task {} received the backend reply tagged {} (another request's reply)", id, tag),
